@@ -116,7 +116,7 @@ impl<'a> G<'a> {
             if i > 0 { if prev_wordlike && wordlike { self.plain_ws(); } else if self.u.coin(1, 2) { self.plain_ws(); } }
             match k {
                 0 => { let s = self.pick(IDENTS); self.p(s); }
-                1 => { if self.u.coin(1, 3) { let s = self.pick(&["$char10.", "best12.2", "date9.", "$20.", "8.", "$upcase8.", "comma12.", "$fmtü5.", "$тест."]); self.p(s); } else { let s = self.pick(IDENTS); self.p(s); } }
+                1 => { if self.u.coin(1, 3) { let s = self.pick(&["$char10.", "best12.2", "date9.", "$20.", "8.", "$upcase8.", "comma12.", "$fmtü5.", "$тест.", "8.2", "e8.", "$8.", "z5.", "yymmdd10.", "$hex4.", "12.", "commax12.2", "best.", "$char."]); self.p(s); } else { let s = self.pick(IDENTS); self.p(s); } }
                 2 => { let s = self.pick(OPEN_KW); self.p(s); }
                 3 => self.number(),
                 4 => { if self.u.coin(1, 8) { self.str_with_stat(); } else { self.str_lit(); } }
@@ -150,7 +150,7 @@ impl<'a> G<'a> {
         self.d_inc(); if self.u.coin(1, 2) { self.let_stmt(); } else { self.put_stmt(); } self.depth -= 1;
         self.p(" e"); self.tp(); self.p("\"");
     }
-    fn mvar(&mut self, dots: bool) { self.feat("mvar"); let v = self.pick(MVARS); match self.u.below(if dots { 6 } else { 5 }) { 0 | 1 => { self.p("&"); self.p(v); } 2 => { self.p("&"); self.p(v); self.p("."); } 3 => { self.p("&&"); self.p(v); self.p("&i"); } 4 => { self.p("&&&"); self.p(v); } _ => { self.p("&"); self.p(v); self.p("&n1.."); } } }
+    fn mvar(&mut self, dots: bool) { self.feat("mvar"); let v = self.pick(MVARS); match self.u.below(if dots { 12 } else { 8 }) { 0 | 1 => { self.p("&"); self.p(v); } 2 => { self.p("&"); self.p(v); self.p("."); } 3 => { self.p("&&"); self.p(v); self.p("&i"); } 4 => { self.p("&&&"); self.p(v); } 5 => { self.feat("mvar-forms"); self.p("&&&&"); self.p(v); self.p("."); } 6 => { self.feat("mvar-forms"); self.p("&"); self.p(v); self.p(".&"); self.p(v); self.p("."); } 7 => { self.feat("mvar-forms"); self.p("&&"); self.p(v); self.p("&&i."); } 8 => { self.p("&"); self.p(v); self.p("&n1.."); } 9 => { self.feat("mvar-forms"); self.p("&"); self.p(v); self.p("._x"); } 10 => { self.feat("mvar-forms"); self.p("&&pre&i.._suf"); } _ => { self.feat("mvar-forms"); self.p("&"); self.p(v); self.p("..x"); } } }
 
     // ---------- macro calls
     // ctx: 0 = open code / text, 1 = inside string expr, 2 = inside macro arg/value
@@ -409,7 +409,7 @@ impl<'a> G<'a> {
     fn macro_def(&mut self) {
         self.feat("macro-def"); self.pk("%macro"); self.rws(); let nm = self.pick(MNAMES); self.p(nm);
         if self.u.coin(2, 3) { self.ows(); self.mark("(", MK::Delim("LPAREN", false)); let n = self.u.below(4); for i in 0..n { if i > 0 { self.mark(",", MK::Delim("COMMA", false)); } self.ows(); let a = self.pick(&["p1", "arg", "_k", "ds"]); self.p(a); self.ows(); if self.u.coin(1, 2) { self.feat("def-default"); self.mark("=", MK::Delim("ASSIGN", false)); self.ows(); if self.u.coin(2, 3) { self.arg_value(true); } } } if n == 0 { self.ows(); } self.mark(")", MK::Delim("RPAREN", false)); }
-        if self.u.coin(1, 4) { self.ows(); self.p("/ des='x' minoperator"); }
+        if self.u.coin(1, 3) { self.ows(); let o = self.pick(&["/ des='x' minoperator", "/ store source", "/ parmbuff", "/ minoperator mindelimiter=','", "/ DES=\"a;b\" secure", "/store", "/ des='it''s'"]); self.p(o); }
         self.ows(); self.mark(";", MK::Delim("SEMI", false));
         self.in_macro += 1; self.body(); self.in_macro -= 1;
         self.pk("%mend"); if self.u.coin(1, 2) { self.rws(); self.p(nm); } self.ows(); self.mark(";", MK::Delim("SEMI", false));
@@ -422,7 +422,7 @@ impl<'a> G<'a> {
         self.feat("misc-stat");
         match self.u.below(8) {
             0 => { self.pk("%return"); self.ows(); self.del_mark(";", "SEMI", "MissingExpectedSemiOrEOF", false); }
-            1 => { self.pk("%symdel"); self.rws(); self.name_expr(); self.p(" / nowarn"); self.ows(); self.p(";"); }
+            1 => { self.pk("%symdel"); self.rws(); self.name_expr(); if self.u.coin(1, 2) { self.p(" "); self.name_expr(); } if self.u.coin(2, 3) { self.p(" / nowarn"); } self.ows(); self.p(";"); }
             2 => { self.pk("%sysexec"); self.rws(); self.p("ls -l /tmp"); self.p(";"); }
             3 => { self.pk("%syscall"); self.rws(); let f = self.pick(&["ranuni", "streaminit", "symput", "set"]); self.p(f); self.ows(); self.del_mark("(", "LPAREN", "MissingExpectedLParen", false); self.ows(); let n = 1 + self.u.below(3); for i in 0..n { if i > 0 { self.mark(",", MK::Delim("COMMA", false)); self.ows(); } match self.u.below(5) { 0 | 1 => self.mvar(true), 2 => { let w = self.pick(&["seed", "x", "abc"]); self.p(w); } 3 => { let w = self.pick(&["1", "42"]); self.mark(w, MK::IntOperand); } _ => self.p("'a,b'") } } self.mark(")", MK::Delim("RPAREN", false)); self.ows(); self.del_mark(";", "SEMI", "MissingExpectedSemiOrEOF", false); }
             4 => { self.pk("%include"); self.rws(); self.p("'file.sas'"); self.ows(); self.p(";"); }
